@@ -199,6 +199,10 @@ def run_shard(item):
                 continue
             for fault in ("raise", "none"):
                 explore_request(engine, schema, text, located, variables, root, {p: fault}, {}, "quick", out, text, cfg["label"])
+            # a null *item* of a list (first / last): lists are completed concurrently or one by one
+            for label, fault, value in c02.kinds_for(schema, fd, c02.NATURAL.get(p)):
+                if label in ("item-null-first", "item-null-last"):
+                    explore_request(engine, schema, text, located, variables, root, {p: fault}, {p: value}, "quick", out, text, cfg["label"])
     # determinism self-check: replay one non-default schedule twice
     loop = vloop()
     scn = Scenario(root=root)
